@@ -450,7 +450,7 @@ theorem isInteger_iff (s : List Char) : isInteger s = true ↔ IntLang s := by
 
 /-! ### `CoreParser::toIndex` -/
 
-theorem toIndex_complete (s : List Char) (v : Nat) (h : IndexLang s v) : toIndex s = some v := by
+theorem toIndex_complete (s : List Char) (v : Nat) (h : IndexLang s v) (hv : v < dblOverflow) : toIndex s = some v := by
   obtain ⟨ws1, ds, ws2, rfl, a1, a2, hds, hne, rfl⟩ := h
   have hall : (ws1 ++ (ds ++ ws2)).all (fun c => isSpace c || isDigit c) = true := by
     rw [List.all_eq_true]
@@ -466,10 +466,28 @@ theorem toIndex_complete (s : List Char) (v : Nat) (h : IndexLang s v) : toIndex
       allDigit_nil, Or.inl hne, Or.inl rfl⟩
     simp only [List.nil_append, List.append_nil]
   unfold toIndex
-  rw [if_pos hall, if_pos hf, trim_eq ws1 ds ws2 a1 a2 (allDigit_noSpace hds)]
+  have ht := trim_eq ws1 ds ws2 a1 a2 (allDigit_noSpace hds)
+  rw [if_pos hall, ht, if_pos (by rw [hf]; simpa using hv)]
 
-/-- `toIndex` accepts exactly `ws* d+ ws*` and returns the digits read in base 10 -/
-theorem toIndex_iff (s : List Char) (v : Nat) : toIndex s = some v ↔ IndexLang s v :=
-  ⟨toIndex_sound s v, toIndex_complete s v⟩
+set_option exponentiation.threshold 2048 in
+/-- the literal in Model/Literals.lean is DBL_MAX + half an ulp -/
+theorem dblOverflow_eq : dblOverflow = 2 ^ 1024 - 2 ^ 970 := by decide +kernel
+
+/-- an accepted index is below the overflow threshold of `atof` (`toDouble` demands `std::isfinite`) -/
+theorem toIndex_lt (s : List Char) (v : Nat) (h : toIndex s = some v) : v < dblOverflow := by
+  unfold toIndex at h
+  split at h
+  · split at h
+    · rename_i hf0
+      cases h
+      have h0 := hf0
+      simp only [Bool.and_eq_true, decide_eq_true_eq] at h0
+      exact h0.2
+    · cases h
+  · cases h
+
+/-- `toIndex` accepts exactly `ws* d+ ws*` whose value `atof` keeps finite, and returns the digits read in base 10 -/
+theorem toIndex_iff (s : List Char) (v : Nat) : toIndex s = some v ↔ IndexLang s v ∧ v < dblOverflow :=
+  ⟨fun h => ⟨toIndex_sound s v h, toIndex_lt s v h⟩, fun h => toIndex_complete s v h.1 h.2⟩
 
 end Gama.Lit
